@@ -254,7 +254,15 @@ class Run:
             io, ie = pi.communicate(timeout=timeout)
         self.last_impl_stderr = ie
         self.last_impl_rc = pi.returncode
+        if "ASSERT in call" in ie:
+            if not hasattr(self, "asserts"): self.asserts = []
+            self.asserts += [l for l in ie.splitlines() if "ASSERT in call" in l][:20]
         il, ml = io.splitlines(), mo.splitlines()
+        if len(il) < len(ops):
+            # the implementation side died (sanitizer report, crash): name the operation it was executing
+            if not hasattr(self, "crashes"): self.crashes = []
+            self.crashes.append({"op": ops[len(il)], "rc": pi.returncode, "stderr": ie[-3000:]})
+            il = il + ["crashed rc=%s" % pi.returncode] * (len(ops) - len(il))
         return il, ml, opf
 
     def run_pair_sharded(self, groups, nshards=16, **kw):
